@@ -1126,7 +1126,7 @@ func getProcessExpressionTokens(tokens []*Token, index int) ([]*Token, int) {
 	exprTokens := []*Token{}
 	token_index := index
 	for token_index < len(tokens) {
-		if isProcessExprEnd(tokens[token_index].TokenType) {
+		if isProcessExprEnd(tokens[token_index].TokenType) || tokens[token_index].TokenType == EOF {
 			break
 		} else if tokens[token_index].TokenType == WS || tokens[token_index].TokenType == COMMENT {
 			token_index += 1
